@@ -88,6 +88,16 @@ pub struct AstLowering {
 }
 
 impl AstLowering {
+    /// Methods of a `pub` model / class / newtype are part of its public interface: an importing module calls them
+    /// (`from shapes import Sq` ... `s.area()`), so the generated inherent methods must be `pub` as well.
+    fn methods_follow_type_visibility(impl_ir: &mut super::decl::IrImpl, struct_ir: &super::decl::IrStruct) {
+        if impl_ir.trait_name.is_none() && struct_ir.visibility == super::decl::Visibility::Public {
+            for m in &mut impl_ir.methods {
+                m.visibility = super::decl::Visibility::Public;
+            }
+        }
+    }
+
     /// Select a validated constructor method for a newtype for v0.1 checked construction.
     ///
     /// Heuristic (minimal hardening for #44, RFC runway):
@@ -286,7 +296,8 @@ impl AstLowering {
 
                             // Generate impl block (may be empty if no methods, serde methods added during emission)
                             match self.lower_model_methods(&struct_ir.name, &m.methods) {
-                                Ok(impl_ir) => {
+                                Ok(mut impl_ir) => {
+                                    Self::methods_follow_type_visibility(&mut impl_ir, &struct_ir);
                                     ir_program.declarations.push(IrDecl::new(IrDeclKind::Impl(impl_ir)));
                                 }
                                 Err(e) => errors.push(e),
@@ -328,7 +339,8 @@ impl AstLowering {
                             // Generate impl block for all methods (inherited + own)
                             if !all_methods.is_empty() {
                                 match self.lower_class_methods(&struct_ir.name, &all_methods) {
-                                    Ok(impl_ir) => {
+                                    Ok(mut impl_ir) => {
+                                        Self::methods_follow_type_visibility(&mut impl_ir, &struct_ir);
                                         ir_program.declarations.push(IrDecl::new(IrDeclKind::Impl(impl_ir)));
                                     }
                                     Err(e) => errors.push(e),
@@ -361,7 +373,8 @@ impl AstLowering {
                             // Generate impl block for newtype methods (if any).
                             if !n.methods.is_empty() {
                                 match self.lower_model_methods(&struct_ir.name, &n.methods) {
-                                    Ok(impl_ir) => {
+                                    Ok(mut impl_ir) => {
+                                        Self::methods_follow_type_visibility(&mut impl_ir, &struct_ir);
                                         ir_program.declarations.push(IrDecl::new(IrDeclKind::Impl(impl_ir)));
                                     }
                                     Err(e) => errors.push(e),
